@@ -18,7 +18,7 @@ import (
 // the fact it establishes about the message-type octet (or the EPD), whatever switch / if chain /
 // local aliases select it.
 
-func nasDispatchEval(fn *ssa.Function) ([]core.AOutcome, *core.Exec, error) {
+func nasDispatchEval(fn *ssa.Function, msgLen int) ([]core.AOutcome, *core.Exec, error) {
 	ex := core.NewExec()
 	ex.MaxStates = 2000
 	ex.OnCall = func(ev *core.AEvent, m *core.AMem) (core.AVal, bool) {
@@ -60,7 +60,13 @@ func nasDispatchEval(fn *ssa.Function) ([]core.AOutcome, *core.Exec, error) {
 	for i := range args {
 		args[i] = core.NonNilArg(args[i])
 	}
-	outs, err := ex.Run(fn, args, nil)
+	var mem *core.AMem
+	if msgLen > 0 && len(args) == 2 && args[1].K == core.APtr {
+		// the message handed in has exactly msgLen octets
+		mem = core.NewMem()
+		mem.Store(args[1].Path, core.AVal{K: core.ASlice, Path: "nasmsg", Lo: 0, Len: msgLen, NonNil: true}, nil)
+	}
+	outs, err := ex.Run(fn, args, mem)
 	return outs, ex, err
 }
 
@@ -116,7 +122,7 @@ func r8dispatchX(c *core.Ctx, m *nasModel) {
 			}
 			fn := mustFunc(c, pNas, "Message."+name)
 			c.Analysed(pNas + ".Message." + name)
-			outs, ex, err := nasDispatchEval(fn)
+			outs, ex, err := nasDispatchEval(fn, 0)
 			if err != nil || len(ex.Unsound) > 0 {
 				c.SoftUndecided("R8.dispatch: nas.%s could not be evaluated (%v %v)", name, err, ex.Unsound)
 				continue
@@ -207,6 +213,34 @@ func r8dispatchX(c *core.Ctx, m *nasModel) {
 				continue
 			}
 			c.Check(okDef && nDef > 0, R, "nas."+name+":default", fn.Pos(), "default: return error", "unknown message types must be reported as an error by the default case")
+			if dir == "decode" {
+				// a message that ends with its header (REGISTRATION COMPLETE, DEREGISTRATION ACCEPT, PDU SESSION
+				// RELEASE COMPLETE ...) is a whole message: with exactly the header's octets the codecs are still reached
+				hl := 3
+				if f.fam == "Gsm" {
+					hl = 4
+				}
+				houts, hex, herr := nasDispatchEval(fn, hl)
+				if herr != nil || len(hex.Unsound) > 0 || nasDispatchDynamic[hex] {
+					c.SoftUndecided("R8.dispatch: nas.%s could not be evaluated for a header-only message (%v %v)", name, herr, hex.Unsound)
+				} else {
+					reached := 0
+					for _, o := range houts {
+						if o.Panicked {
+							continue
+						}
+						for _, ev := range o.Trace {
+							short := ev.Callee[strings.LastIndexByte(ev.Callee, '.')+1:]
+							if strings.HasPrefix(ev.Callee, pNasM+".") && strings.HasPrefix(short, "Decode") {
+								reached++
+								break
+							}
+						}
+					}
+					c.Check(reached >= len(seen) && reached > 0, R, "nas."+name+":header-only", fn.Pos(), fmt.Sprintf("a message of %d octets (its header alone) reaches the codec of each of the %d message types", hl, len(seen)),
+						"a message that consists of its %d header octets alone is a whole message (one without further mandatory IEs): it must be dispatched like any other, but only %d of %d message types reach their codec", hl, reached, len(seen))
+				}
+			}
 		}
 	}
 	var missing []string
@@ -225,7 +259,7 @@ func r8dispatchX(c *core.Ctx, m *nasModel) {
 	c.Check(epdM == 0x7e && epdS == 0x2e, R, "nasMessage.Epd", token.NoPos, "0x7E / 0x2E", "EPD values must be 0x7E (5GMM) and 0x2E (5GSM), are %#x / %#x", epdM, epdS)
 	{
 		fn := mustFunc(c, pNas, "Message.PlainNasDecode")
-		outs, ex, err := nasDispatchEval(fn)
+		outs, ex, err := nasDispatchEval(fn, 0)
 		if err != nil || len(ex.Unsound) > 0 {
 			c.SoftUndecided("R8.dispatch: nas.PlainNasDecode could not be evaluated (%v %v)", err, ex.Unsound)
 		} else {
@@ -270,7 +304,7 @@ func r8dispatchX(c *core.Ctx, m *nasModel) {
 	}
 	{
 		fn := mustFunc(c, pNas, "Message.PlainNasEncode")
-		outs, ex, err := nasDispatchEval(fn)
+		outs, ex, err := nasDispatchEval(fn, 0)
 		if err != nil || len(ex.Unsound) > 0 {
 			c.SoftUndecided("R8.dispatch: nas.PlainNasEncode could not be evaluated (%v %v)", err, ex.Unsound)
 		} else {
